@@ -215,7 +215,7 @@ func checkC12(cx *Ctx, r *Report) {
 			for _, in := range b.Instrs {
 				if st, ok := in.(*ssa.Store); ok {
 					if fa, ok := st.Addr.(*ssa.FieldAddr); ok && isXMLModelPkg(pkgOfNamed(fa.X.Type())) && !strings.HasPrefix(fieldOwner(fa.X.Type()), "soap.") {
-						bad = "stores to " + fieldOwner(fa.X.Type()) + "." + fieldVar(fa.X.Type(), fa.Field).Name() + " at " + w.InstrPos(st)
+						bad = "stores to " + fieldOwner(fa.X.Type()) + "." + fname(fieldVar(fa.X.Type(), fa.Field)) + " at " + w.InstrPos(st)
 					}
 				}
 			}
